@@ -111,6 +111,11 @@ fn run_c15(out: &mut Out, tier: &str, rng: &mut Rng) {
 
 fn run_c14(out: &mut Out, tier: &str, rng: &mut Rng) {
     c14::run(out, tier, rng);
+    // "other sessions are not blocked": several clients connected at once through the real server (accept loop included); each
+    // registers and is served while the others stay connected
+    for clients in [2usize, 4] {
+        c15::via_server(out, clients);
+    }
     hs::run(out, tier, rng);
     out.rule.push_str("; client half: every ClientBuilder option combination over a Unix socket and over TCP and the four convenience functions against a stub daemon that records flags and name");
 }
